@@ -1,6 +1,7 @@
 import Knee.Model.Basic
 import Knee.Model.Wire
 import Knee.Model.Mapping
+import Knee.Model.RdpM
 /-
 Correspondence driver.  `lake env lean --run Driver.lean` (or the compiled `driver` exe).
 Harness → driver : `CALL <fn> <arg> <arg> …`
@@ -20,7 +21,32 @@ def orErr {α} (o : Option α) (msg : String) : ExceptT String IO α :=
   | some a => pure a
   | none => throw msg
 
-def dispatch (out inp : IO.FS.Stream) (fn : String) (args : List String) : ExceptT String IO String := do
+abbrev M := ExceptT String IO
+
+def askRats (out inp : IO.FS.Stream) (q : String) : M (List Rat) := do
+  let toks ← ask out inp q
+  match toks with
+  | [tok] => orErr (parseList? parseRat? tok) ("bad oracle answer to " ++ q)
+  | _ => throw ("bad oracle answer to " ++ q)
+
+def askRat (out inp : IO.FS.Stream) (q : String) : M Rat := do
+  match ← askRats out inp q with
+  | [r] => pure r
+  | _ => throw ("expected one rational for " ++ q)
+
+def askPair (out inp : IO.FS.Stream) (q : String) : M (Rat × Rat) := do
+  match ← askRats out inp q with
+  | [a, b] => pure (a, b)
+  | _ => throw ("expected two rationals for " ++ q)
+
+def oCst (out inp : IO.FS.Stream) (l r : Nat) : M Rat := askRat out inp s!"cst {l} {r}"
+def oDst (out inp : IO.FS.Stream) (l r : Nat) : M (List Rat) := askRats out inp s!"dst {l} {r}"
+def oKey (out inp : IO.FS.Stream) (l r i : Nat) : M (Rat × Rat) := askPair out inp s!"key {l} {r} {i}"
+def oAccept (out inp : IO.FS.Stream) (isR2 : Bool) (t : Rat) (red : List Nat) : M Bool := do
+  let g ← askRat out inp s!"gcs {showNats red}"
+  pure (!curved isR2 t g)
+
+def dispatch (out inp : IO.FS.Stream) (fn : String) (args : List String) : M String := do
   match fn, args with
   | "computeRemoved", [red] =>
     let r ← orErr (parseList? parseNat? red) "reduced"
@@ -30,6 +56,35 @@ def dispatch (out inp : IO.FS.Stream) (fn : String) (args : List String) : Excep
     let r ← orErr (parseList? parseNat? red) "reduced"
     let m ← orErr (parseList? (parsePair? parseNat? parseNat?) rem) "removed"
     pure (showNats (mapping i r m (srt == "1")))
+  | "rdp", [isR2, t, n] =>
+    let t ← orErr (parseRat? t) "t"
+    let n ← orErr (parseNat? n) "n"
+    let r ← rdpM (isR2 == "1") t (oCst out inp) (oDst out inp) n
+    match r with
+    | none => pure "none"
+    | some (red, rem) => pure (showNats red ++ " " ++ showPairs rem)
+  | "rdp_fixed", [n, k] =>
+    let n ← orErr (parseNat? n) "n"
+    let k ← orErr (parseNat? k) "k"
+    let s ← fixedLoopM (oDst out inp) (oKey out inp) (k - 2) (rinit n)
+    pure (showNats s.reduced)
+  | "grdp", [isR2, t, n] =>
+    let t ← orErr (parseRat? t) "t"
+    let n ← orErr (parseNat? n) "n"
+    let s ← grdpLoopM (oAccept out inp (isR2 == "1") t) (oDst out inp) (oKey out inp) n (rinit n)
+    pure (showNats s.reduced)
+  | "mp_grdp", [isR2, t, n, mp] =>
+    let t ← orErr (parseRat? t) "t"
+    let n ← orErr (parseNat? n) "n"
+    let mp ← orErr (parseNat? mp) "mp"
+    let r ← mpGrdpM (oAccept out inp (isR2 == "1") t) (oDst out inp) (oKey out inp) n mp
+    pure (showNats r)
+  | "min_point_rdp", [n, mp, ts] =>
+    let n ← orErr (parseNat? n) "n"
+    let mp ← orErr (parseNat? mp) "mp"
+    let ts ← orErr (parseList? parseRat? ts) "ts"
+    let r ← minPointRdpM (fun t => oAccept out inp false t) (oDst out inp) (oKey out inp) n mp (sortDesc ts)
+    pure (showNats r)
   | _, _ => throw s!"unknown call {fn}/{args.length}"
 
 partial def loop (out inp : IO.FS.Stream) : IO Unit := do
